@@ -162,3 +162,9 @@ func Permutations(n int) [][]int {
 	rec(0)
 	return res
 }
+
+// Current records which case is about to run, so that a crash of the whole process can be attributed.
+func Current(dir string, idx int, input interface{}) {
+	b, _ := json.Marshal(map[string]interface{}{"case": idx, "input": input})
+	os.WriteFile(filepath.Join(dir, "current_case.json"), b, 0o644)
+}
